@@ -107,6 +107,10 @@ pub fn profile(prop: &str) -> Profile {
     p.w[W_DROPARENA] = 1;
     p.w[W_CLEAR] = 1;
     p.w[W_REWIND] = 1;
+    p.w[W_REOPEN] = 1;
+    p.w[W_TRUNC] = 1;
+    p.w[W_FLUSH] = 1;
+    p.reopen_modes = 0b1111;
     match prop {
         "C01" => {}
         "C03" => {
@@ -121,7 +125,6 @@ pub fn profile(prop: &str) -> Profile {
             p.sizes = Sizes::Boundary;
             p.w[W_DISCARD] = 1;
             p.w[W_SETMIN] = 2;
-            p.reopen_modes = 0b1100;
             p.w[W_REOPEN] = 2;
         }
         "C08" => {
@@ -130,7 +133,6 @@ pub fn profile(prop: &str) -> Profile {
             p.w[W_REWIND] = 4;
             p.w[W_DISCARD] = 2;
             p.w[W_REOPEN] = 3;
-            p.reopen_modes = 0b0001;
             p.w[W_REWRITE] = 10;
         }
         "C10" => {
@@ -153,7 +155,6 @@ pub fn profile(prop: &str) -> Profile {
             p.w[W_TRUNC] = 3;
             p.w[W_CLEAR] = 2;
             p.w[W_REOPEN] = 2;
-            p.reopen_modes = 0b1111;
             p.w[W_SETMIN] = 3;
             p.w[W_DISCARD] = 2;
             p.w[W_INCDISC] = 2;
@@ -172,8 +173,10 @@ pub fn profile(prop: &str) -> Profile {
             p.w[W_TRUNC] = 10;
             p.w[W_SETMIN] = 2;
             p.w[W_REOPEN] = 1;
-            p.reopen_modes = 0b1111;
-            p.owned_pct = 0;
+            // owned handles and clones stay alive across truncate(&mut self) in a legal program
+            p.owned_pct = 15;
+            p.w[W_CLONE] = 2;
+            p.w[W_DROPARENA] = 2;
         }
         "C20" => {
             p.prop = "C20";
@@ -182,7 +185,6 @@ pub fn profile(prop: &str) -> Profile {
             p.w[W_SETMIN] = 6;
             p.w[W_FILL] = 5;
             p.w[W_REOPEN] = 1;
-            p.reopen_modes = 0b1100;
         }
         "C11" => {
             p.prop = "C11";
@@ -192,6 +194,9 @@ pub fn profile(prop: &str) -> Profile {
             p.w[W_REWIND] = 4;
             p.w[W_CLEAR] = 2;
             p.w[W_FILL] = 5;
+            // the comparison needs both flavours to offer the call (truncate is unsync-only) and one session
+            p.w[W_TRUNC] = 0;
+            p.w[W_REOPEN] = 0;
             p.spurious = false;
         }
         "C05" => {
@@ -203,7 +208,6 @@ pub fn profile(prop: &str) -> Profile {
             p.w[W_DISCARD] = 2;
             p.w[W_INCDISC] = 2;
             p.w[W_FILL] = 5;
-            p.reopen_modes = 0b1111;
         }
         "C06" => {
             p.prop = "C06";
@@ -211,6 +215,9 @@ pub fn profile(prop: &str) -> Profile {
             p.w[W_REWIND] = 0;
             p.w[W_CLONE] = 0;
             p.w[W_DROPARENA] = 0;
+            // the crash enumeration models one writable session of one mapping
+            p.w[W_TRUNC] = 0;
+            p.w[W_REOPEN] = 0;
             p.backends = vec![Backend::File];
             p.w[W_SETMIN] = 2;
             p.w[W_DISCARD] = 3;
